@@ -1,0 +1,177 @@
+// Copyright (c) 2026 10X Genomics, Inc. All rights reserved.
+
+//go:build verif
+
+package syntax
+
+import (
+	"fmt"
+	"sort"
+	"strconv"
+	"strings"
+)
+
+// Third set of exports for the external verification harness (property C10):
+// functions that walk a Go map whose effect is not an error list.  This file
+// is only compiled with `-tags verif`.
+
+// VerifC10RefWithForkSources returns the ids of the references found by
+// RefExp.FindRefs in a reference which is indexed by n map calls, each through
+// an index whose (unknown) source is a reference to another stage.
+func VerifC10RefWithForkSources(n int) string {
+	ref := &RefExp{Kind: KindCall, Id: "S", OutputId: "r", Forks: make(map[*CallStm]CollectionIndex, n)}
+	for i := 0; i < n; i++ {
+		c := &CallStm{Id: fmt.Sprintf("C%02d", (i*7)%n), DecId: "S"}
+		ref.Forks[c] = unknownIndex{src: &RefExp{Kind: KindCall, Id: fmt.Sprintf("SRC_OF_%s", c.Id), OutputId: "keys"}}
+	}
+	var ids []string
+	for _, r := range ref.FindRefs() {
+		ids = append(ids, r.Id)
+	}
+	return strings.Join(ids, " ")
+}
+
+// VerifC10DisableAllTrue calls resolveDisableMap with a split disable map
+// of n literal `true` entries, each on its own source line, and returns the
+// source line of the expression it picks to stand for all of them.
+func VerifC10DisableAllTrue(n int) string {
+	v := make(map[string]Exp, n)
+	for i := 0; i < n; i++ {
+		v[fmt.Sprintf("k%02d", (i*7)%n)] = &BoolExp{
+			valExp: valExp{Node: AstNode{Loc: SourceLoc{Line: 100 + i}}}, Value: true}
+	}
+	r, err := resolveDisableMap(&IntExp{Value: 1}, v, nil)
+	var sb strings.Builder
+	for _, e := range r {
+		fmt.Fprintf(&sb, "%s@line %d ", e.GoString(), e.getNode().Loc.Line)
+	}
+	return sb.String() + "/ " + verifErrText(err)
+}
+
+// VerifC10FindSplitCalls builds an expression from a description and returns
+// the sorted ids of the calls that findSplitCalls leaves in its result set,
+// starting from the set of the calls named in initial.
+//
+//	tree ::= L c,c,…|.          a reference indexed (through unknown sources) by those calls
+//	       | S c k tree         a split over call c; k=1: its source has a known length
+//	       | M c tree           a merge over call c
+//	       | N n (tree)^n       a map literal of n entries
+//	       | A n (tree)^n       an array literal of n entries
+//
+// (tokens separated by blanks)
+func VerifC10FindSplitCalls(desc string, initial []string, onlyUnknown bool) (ids []string, err error) {
+	defer func() {
+		if r := recover(); r != nil {
+			err = fmt.Errorf("panic: %v", r)
+		}
+	}()
+	calls := make(map[string]*CallStm)
+	call := func(id string) *CallStm {
+		c := calls[id]
+		if c == nil {
+			c = &CallStm{Id: id, DecId: "S"}
+			calls[id] = c
+		}
+		return c
+	}
+	toks := strings.Fields(desc)
+	var parse func() (Exp, error)
+	next := func() (string, error) {
+		if len(toks) == 0 {
+			return "", fmt.Errorf("truncated description")
+		}
+		t := toks[0]
+		toks = toks[1:]
+		return t, nil
+	}
+	parse = func() (Exp, error) {
+		t, err := next()
+		if err != nil {
+			return nil, err
+		}
+		switch t {
+		case "L":
+			cs, err := next()
+			if err != nil {
+				return nil, err
+			}
+			ref := &RefExp{Kind: KindCall, Id: "X", OutputId: "o"}
+			if cs != "." {
+				ref.Forks = make(map[*CallStm]CollectionIndex)
+				for _, c := range strings.Split(cs, ",") {
+					ref.Forks[call(c)] = unknownIndex{src: &RefExp{Kind: KindCall, Id: "SRC", OutputId: c}}
+				}
+			}
+			return ref, nil
+		case "S":
+			c, err := next()
+			if err != nil {
+				return nil, err
+			}
+			k, err := next()
+			if err != nil {
+				return nil, err
+			}
+			sub, err := parse()
+			if err != nil {
+				return nil, err
+			}
+			var src MapCallSource = &RefExp{Kind: KindCall, Id: "SRC", OutputId: c}
+			if k == "1" {
+				src = &ArrayExp{Value: []Exp{&IntExp{Value: 1}, &IntExp{Value: 2}}}
+			}
+			return &SplitExp{Value: sub, Call: call(c), Source: src}, nil
+		case "M":
+			c, err := next()
+			if err != nil {
+				return nil, err
+			}
+			sub, err := parse()
+			if err != nil {
+				return nil, err
+			}
+			return &MergeExp{Call: &CallGraphStage{Fqid: "ID." + c, call: call(c)},
+				MergeOver: &RefExp{Kind: KindCall, Id: "SRC", OutputId: c}, Value: sub}, nil
+		case "N", "A":
+			ns, err := next()
+			if err != nil {
+				return nil, err
+			}
+			n, err := strconv.Atoi(ns)
+			if err != nil {
+				return nil, err
+			}
+			if t == "A" {
+				a := &ArrayExp{Value: make([]Exp, n)}
+				for i := range a.Value {
+					if a.Value[i], err = parse(); err != nil {
+						return nil, err
+					}
+				}
+				return a, nil
+			}
+			m := &MapExp{Kind: KindMap, Value: make(map[string]Exp, n)}
+			for i := 0; i < n; i++ {
+				if m.Value[fmt.Sprintf("k%02d", (i*7)%(n+1))+strconv.Itoa(i)], err = parse(); err != nil {
+					return nil, err
+				}
+			}
+			return m, nil
+		}
+		return nil, fmt.Errorf("bad token %q", t)
+	}
+	exp, err := parse()
+	if err != nil {
+		return nil, err
+	}
+	result := make(map[*CallStm]struct{})
+	for _, c := range initial {
+		result[call(c)] = struct{}{}
+	}
+	findSplitCalls(exp, result, onlyUnknown)
+	for c := range result {
+		ids = append(ids, c.Id)
+	}
+	sort.Strings(ids)
+	return ids, nil
+}
